@@ -91,6 +91,7 @@ template<class T> void vb_ptr_ops(rlbox_sandbox<SBX>& s)
   auto vv = v.copy_and_verify([](T x) { return x; }); (void)vv;
   auto dv = d.copy_and_verify([](T x) { return x; }); (void)dv;
   auto vvr = v.copy_and_verify([](const T& x) { return x; }); auto dvr = d.copy_and_verify([](const T& x) { return x; }); (void)vvr; (void)dvr;
+  auto vva = v.copy_and_verify([](const auto& x) { return x; }); auto dva = d.copy_and_verify([](auto&& x) { return x; }); (void)vva; (void)dva;
   rlbox::memset(s, p, 0, 4u); rlbox::memcpy(s, p, q, 4u); auto h = rlbox::memcmp(s, p, q, 4u); (void)h;
   rlbox::memset(s, p, ti, tul); rlbox::memcpy(s, p, q, tul); rlbox::memcmp(s, p, q, tul);
   T plain[2]{}; rlbox::memcpy(s, p, plain, sizeof(plain)); rlbox::memcmp(s, p, plain, 2u);
@@ -221,6 +222,9 @@ void vb_invoke(rlbox_sandbox<SBX>& s)
   auto scv = sv.copy_and_verify([](tainted<VbS1, SBX> x) { return x.UNSAFE_unverified(); }); (void)scv;
   auto vcv = vs.copy_and_verify([](tainted<VbS1, SBX> x) { return x.UNSAFE_unverified(); }); (void)vcv;
   auto vcvr = vs.copy_and_verify([](const tainted<VbS1, SBX>& x) { return x.UNSAFE_unverified(); }); (void)vcvr;
+  // verifiers whose parameter type is deduced: whatever object the library hands over is what they bind to
+  auto vcva = vs.copy_and_verify([](const auto& x) { return x.UNSAFE_unverified(); }); (void)vcva;
+  auto scva = sv.copy_and_verify([](auto&& x) { return x.UNSAFE_unverified(); }); (void)scva;
   auto pcv = ps.copy_and_verify([](std::unique_ptr<tainted<VbS1, SBX>> x) { return x != nullptr; }); (void)pcv;
   auto su = sv.UNSAFE_unverified(); auto ss = sv.UNSAFE_sandboxed(s); auto vu = vs.UNSAFE_unverified();
   auto sub = sv.unverified_safe_because("x"); auto sop = sv.to_opaque(); auto sback = from_opaque(sop); (void)su; (void)ss; (void)vu; (void)sub; (void)sback;
